@@ -117,8 +117,10 @@ class WatermarkPoolSink(PoolSink):
       sink = self._sink_provider.CreateSink(self._properties)
       # TODO: we could get a better failure case here by detecting that Open()
       # failed and retrying, however for now the simplest option is to just fail.
-      sink.Open().wait()
+      # Subscribe before opening so that a sink which fails while it is being
+      # opened is reported as well.
       sink.on_faulted.Subscribe(self.__PropagateShutdown)
+      sink.Open().wait()
       return sink
     else:
       if len(self._waiters) + 1 > self._max_queue_size:
